@@ -288,7 +288,7 @@ def gen_fields(ctx, n, named, variant=None):
         fields.append(f)
     return fields
 
-def gen_case(seed, spseed, modelled, want_fault=False, kinds=('struct', 'enum', 'union'), force_traits=None):
+def gen_case(seed, spseed, modelled, want_fault=False, kinds=('struct', 'enum', 'union'), force_traits=None, must=None):
     rng = random.Random('cfg-%s' % seed)
     sp = random.Random('sp-%s-%s' % (seed, spseed))
     pool = [t for t in ALL_TRAITS if t in modelled]
@@ -297,6 +297,11 @@ def gen_case(seed, spseed, modelled, want_fault=False, kinds=('struct', 'enum', 
     else:
         k = 1 + min(rng.randrange(len(pool)), rng.randrange(len(pool)))
         traits = rng.sample(pool, k)
+        if must:
+            # forced traits plus (usually few) others as cross-talk
+            if rng.random() < 0.5:
+                traits = traits[:1]
+            traits = list(must) + [t for t in traits if t not in must]
     traits = [t for t in ALL_TRAITS if t in traits]
     ctx = Ctx(rng, sp, set(traits))
     ctx.want_fault = want_fault
